@@ -69,8 +69,14 @@ def node_name(cls, worker):
     return f"{restr}.{cls['name']}.vms.{body}"
 
 
+class EventOverflow(BaseException):
+    """the run produced more events than any terminating run of this size can (livelock guard)"""
+
+
 class Run:
     """One execution of the real traversal for a spec; collects the event stream."""
+    max_events = 60000
+    overflow = False
 
     def __init__(self, spec, trace_internal=True):
         self.spec = spec
@@ -212,6 +218,9 @@ class Run:
     # -- seams ---------------------------------------------------------------------------
     def ev(self, *fields):
         self.events.append(list(fields))
+        if len(self.events) > self.max_events:
+            self.overflow = True
+            raise EventOverflow()
 
     def worker_of_task(self):
         t = asyncio.current_task()
@@ -235,13 +244,19 @@ class Run:
                           if key2.startswith("get_state_images_") and v)
             locs = sorted((key2[len("get_location_image1_"):], v) for key2, v in node.params.items()
                           if key2.startswith("get_location_image1_"))
-            access = sorted((key2, v) for key2, v in node.params.items()
-                            if key2.startswith("nets_") and key2.count("_") >= 2 and key2.rsplit("_", 1)[1] in run.workers)
+            access = []
+            for v_id, v_worker in run.workers.items():
+                keys = [k2 for k2 in v_worker.params if k2.startswith("nets_")]
+                if keys and all(node.params.get(f"{k2}_{v_id}") == v_worker.params[k2] for k2 in keys):
+                    access.append(v_id)
+            me = run.workers.get(run.worker_of_task())
+            nets_ok = me is not None and all(node.params.get(k2) == me.params.get(k2)
+                                             for k2 in ("nets", "nets_host", "nets_gateway", "nets_spawner"))
             run.ev(run.worker_of_task(), "start", key[0], uid, {
                 "node_worker": key[1], "nets": node.params.get("nets"), "host": node.params.get("nets_host"),
                 "gateway": node.params.get("nets_gateway"), "spawner": node.params.get("nets_spawner"),
                 "started": node.started_worker.id if node.started_worker else None,
-                "gets": gets, "locs": locs, "access": access,
+                "gets": gets, "locs": locs, "access": access, "nets_ok": nets_ok,
                 "unknown": sum(1 for r in node.results if r["status"] == "UNKNOWN")})
             await run.vsleep(dur)
             if status is not None:
@@ -361,6 +376,8 @@ class Run:
             try:
                 await self.graph.traverse_object_trees(self.workers[wid], params)
                 self.ev(wid, "exit", "ok")
+            except EventOverflow:
+                self.events.append([wid, "timeout", "event-overflow"])
             except BaseException as e:  # noqa
                 self.ev(wid, "raise", type(e).__name__, str(e)[:200])
 
@@ -569,7 +586,7 @@ def gen_spec(rng, profile="mixed"):
         scope = list(scopes)
     else:
         scope = [s for s in scopes if rng.random() < 0.7] or ["own"]
-    cfg = {"pool_scope": " ".join(scope), "test_timeout": rng.choice([100, 100, 200, 1000])}
+    cfg = {"pool_scope": " ".join(scope), "test_timeout": rng.choice([1000, 1000, 1000, 200, 100])}
     if rng.random() < 0.35 or profile == "converge":
         cfg["max_tries"] = rng.choice([1, 2, 2, 3])
         if rng.random() < 0.4:
@@ -658,3 +675,69 @@ def gen_spec(rng, profile="mixed"):
             seq.append([dur, st])
         sched[w["id"]] = seq
     return {"workers": workers, "vms": vms, "cfg": cfg, "classes": classes, "pool": poolspec, "schedule": sched}
+
+
+def mon_lines(run):
+    """the REAL event stream as `ev ...` lines for the verified monitors of drv_trav"""
+    out = []
+    for e in run.events:
+        w, kind = e[0], e[1]
+        wi = run.widx[w]
+        if kind == "start":
+            line = project(run, e).split(" ")
+            cls = line[2]
+            locs = ",".join(f"{vm}=" + "+".join(("S" if tok.split(":")[0] == "" else tok.split(":")[0]) for tok in v.split())
+                            for vm, v in e[4]["locs"])
+            out.append(f"ev start {wi} {cls} {e[3]} locs={locs or '-'} nw={run.widx[e[4]['node_worker']]} "
+                       f"nets={1 if e[4]['nets_ok'] else 0} access={'+'.join(e[4]['access']) or '-'}")
+        elif kind == "end":
+            line = project(run, e).split(" ")
+            out.append(f"ev end {wi} {line[2]} {e[3]} {e[4]['status'] or 'NONE'} {e[4]['dur']}")
+        elif kind == "door":
+            reqs = ",".join(f"{r[0]}:{r[1]}" for r in e[4]["reqs"])
+            out.append(f"ev door {run.widx[e[3]]} {e[2]} reqs={reqs or '-'} ok={'true' if e[4]['ok'] else 'false'}")
+        elif kind == "exit":
+            out.append(f"ev exit {wi}")
+        elif kind == "raise":
+            out.append(f"ev raise {wi} {e[2]}")
+        elif kind == "timeout":
+            out.append(f"ev timeout {wi}")
+    return out
+
+
+MONITORS = ["overlap", "count", "present", "owner", "states", "cleanup", "result", "uid"]
+
+
+def run_case(spec, driver, monitors=MONITORS, max_virtual=200000):
+    """run the real traversal for a spec; returns dict(disagree=..., mon={name: verdict}, stats=...)"""
+    r = Run(spec)
+    r.execute(max_virtual=max_virtual)
+    res = {"events": len(r.events), "vtime": r.vtime, "verdict": r.verdict}
+    lines = list(r.static_lines)
+    bl = [] if r.overflow else blocks(r)
+    n0 = len(lines)
+    lines += [b[0] for b in bl]
+    n1 = len(lines)
+    lines += mon_lines(r)
+    n2 = len(lines)
+    dry = spec["cfg"].get("dry_run") == "yes"
+    mons = [("result-dry" if (m == "result" and dry) else m) for m in monitors]
+    lines += [f"mon {m}" for m in mons]
+    outs = driver("drv_trav", lines)
+    res["disagree"] = None
+    res["overflow"] = r.overflow
+    for i, (resume, evs) in enumerate([] if r.overflow else bl):
+        got = " | ".join(canon(x) for x in outs[n0 + i].split(" | ") if x)
+        want = " | ".join(evs)
+        if got != want:
+            res["disagree"] = {"block": i, "resume": resume, "model": got[:1500], "impl": want[:1500]}
+            break
+    res["mon"] = {m: outs[n2 + k] for k, m in enumerate(monitors)}
+    kinds = {}
+    for e in r.events:
+        kinds[e[1]] = kinds.get(e[1], 0) + 1
+    res["kinds"] = kinds
+    res["n_exec"] = kinds.get("start", 0)
+    res["class_names"] = {str(r.classes[n.bridged_form]): key[0] for key, n in r.nodes.items()}
+    res["statuses"] = sorted({str(e[4]["status"]) for e in r.events if e[1] == "end"})
+    return res
